@@ -17,8 +17,16 @@ Conventions
   accepts them only directly after `copyPush (int n)` and only where no jump lands between
   the two, so the count is the static `n`.
 * `callVal` is dynamic: the number of results (0 for a `null` result, else 1) is part of the
-  annotation (`FnAnn.dyn`), chosen by `infer` from the name of the callee where the code shows it.
-  The soundness theorems assume that the called value conforms to the site (`DynOK`).
+  annotation (`FnAnn.dyn`), chosen by `infer` from the name of the callee where the code shows it
+  (else by trying 1, then 0). The soundness theorems assume that the called value conforms to the
+  site (`HmsProofs.Lemmas.VMCheck.DynOK`).
+* `setTry` records (catch label, height, offset); the catch label is entered with height + 1 (the
+  error object), that offset and the handler still installed; no instruction inside the protected
+  region takes the stack below the recorded height; `ret` needs an empty handler list.
+* `throw` has no successor; unreachable instructions carry no annotation and are not checked.
+
+Driver use: `hcheck (compile prog).fns`; `hcheckReport` names the first function / instruction
+index that is not accepted.
 -/
 namespace Hms.Core.BcCheck
 open Hms.Core Hms.Core.Comp Hms.Core.VM
